@@ -3,7 +3,7 @@ import Verif.Proofs.C09HtmlStartTag
 # C09 / HTML — the start tags written by the model of html.go (`Model/Html.lean`) have the shape `WAttr.bytes`
 -/
 namespace Verif.Proofs.C09HtmlTag
-open Verif.Spec.C09HtmlTok Verif.Spec.HtmlAttr Verif.Model.HtmlAttr Verif.Model.Html Verif.Gen
+open Verif.Spec.C09HtmlTok Verif.Spec.C09HtmlShape Verif.Spec.HtmlAttr Verif.Model.HtmlAttr Verif.Model.Html Verif.Gen
 
 /-- what html.go means by the attribute that it writes for `x` with the final value `val` -/
 def wattrOf (o : Opts) (x : AttrSt) (val : List Char) : WAttr :=
